@@ -8,13 +8,14 @@
    (K1) every state entering the computed set / the work list is productive (T_PROD);
    (K2) every state of the computed set has a justifying rule kept:  r_wx ==> just_wx;
    (K3) a kept non-leaf rule has had its witness child processed (so its children are in the set):  rt_w && !w_leaf ==> r_wc;   leaf rules: has_w && w_leaf ==> rt_w;
-   (K4) every final state of *this that is in the computed set is final in the result, and no other;  the result goes through RemoveUnreachableStates.
+   (K4) every final state of *this that is in the computed set is final in the result, and no other;  the result goes through RemoveUnreachableStates;
+   (K6) the search only stops when a productive final state was found or the work list is exhausted (!g_found_f ==> !pend_wc).
    NOT decided: completeness of the search (that a productive final state is eventually reached) -- trusted contract of reachedBy, as in ta_useless. */
 #include "common/sp_ghost.h"
 extern uint8_t T_PROD[__CPROVER_constant_infinity_uint];
 void* VERIF_new(uint64_t n); void VERIF_delete(void* p);
 uint64_t wq, wa, wtid, wc, wf, wx; _Bool has_w, w_leaf, fin_wf;
-_Bool g_new, r_wc, r_wf, r_wx, just_wx, pend_wc, rt_w, sm_w, w_erased, q_is_wc, ssf_w, iat_w, g_shortcut, g_find_hit;
+_Bool g_found_f, g_new, r_wc, r_wf, r_wx, just_wx, pend_wc, rt_w, sm_w, w_erased, q_is_wc, ssf_w, iat_w, g_shortcut, g_find_hit;
 _Bool seen_q, cur_q, seen_a, cur_a, seen_t, cur_t, seen_c, cur_c, seen_i, seen_f, cur_f, seen_k;
 uint64_t g_rem, g_cq, g_sm_key, g_q, g_back, g_cur_f, cell_child, cell_back, cell_f; uint8_t g_ret_kind;
 E_CMAP cell_cm; E_CLU cell_clu; SPV cell_tup; E_SM cell_sm; TIP cell_tip; TI cell_tiw, cell_tio; void* g_cur_kept;
@@ -24,7 +25,7 @@ AUT *g_this, *g_ret; void *g_local, *m_this;
 #define BEQ(a, b) (!(a) == !(b))      /* equality of truth values: a havocked _Bool need not be 0 / 1 */
 #define CONS    ((wc != wf || BEQ(r_wc, r_wf)) && (wc != wx || BEQ(r_wc, r_wx)) && (wf != wx || BEQ(r_wf, r_wx)) && (r_wx ==> just_wx))
 #define DONE_W  (w_leaf ? rt_w : sm_w)
-#define R_G     r_wc, r_wf, r_wx, just_wx, pend_wc, g_new
+#define R_G     r_wc, r_wf, r_wx, just_wx, pend_wc, g_new, g_found_f
 #define G_CHILD seen_c, cur_c, cell_child, cell_sm, g_sm_key, sm_w, g_rem
 #define G_TUP   G_CHILD, seen_t, cur_t, cell_tup, rt_w, R_G, cell_tip, cell_tio
 #define G_SYMS  G_TUP, seen_a, cur_a, cell_clu
@@ -34,7 +35,7 @@ AUT *g_this, *g_ret; void *g_local, *m_this;
 #define G_FIN   seen_f, cur_f, cell_f, g_cur_f, g_find_hit, ssf_w
 #define G_KEPT  seen_k, cell_tip, cell_tio, g_cur_kept, iat_w
 #define CONTRACT_CAND \
-  __CPROVER_requires(v_this == g_this && v_agg_result == g_ret && g_ret_kind == 0 && g_rem == 0 && !rt_w && !sm_w && !w_erased && !ssf_w && !iat_w && !g_shortcut && !just_wx) \
+  __CPROVER_requires(v_this == g_this && v_agg_result == g_ret && g_ret_kind == 0 && g_rem == 0 && !rt_w && !sm_w && !w_erased && !ssf_w && !iat_w && !g_shortcut && !just_wx && !g_found_f) \
   __CPROVER_requires(SP_PTR(&cell_tiw.f0) == TOKT_W && cell_tiw.f1 == wa && cell_tiw.f2 == wq) \
   __CPROVER_assigns(G_OWN, G_WORK, G_FIN, G_KEPT, g_local, g_shortcut, g_ret_kind) \
   __CPROVER_ensures(g_ret_kind == 1) \
@@ -43,7 +44,8 @@ AUT *g_this, *g_ret; void *g_local, *m_this;
   __CPROVER_ensures((rt_w && !w_leaf) ==> (w_erased && r_wc)) \
   __CPROVER_ensures(g_shortcut ? g_rem == 0 : (g_rem != 0 && BEQ(rt_w, iat_w))) \
   __CPROVER_ensures(BEQ(ssf_w, fin_wf && r_wf)) \
-  __CPROVER_ensures(r_wx ==> just_wx)
+  __CPROVER_ensures(r_wx ==> just_wx) \
+  __CPROVER_ensures(!g_found_f ==> !pend_wc)
 #define P1 __CPROVER_loop_invariant(CONS && v_remaining_slot == g_rem && BEQ(r_wc, pend_wc) && (rt_w ==> w_leaf) && (sm_w ==> !w_leaf) && !w_erased)
 #define LOOPASG_CAND__L_OWNERS , G_OWN
 #define LOOP_CAND__L_OWNERS P1 \
@@ -71,7 +73,7 @@ AUT *g_this, *g_ret; void *g_local, *m_this;
   __CPROVER_loop_invariant((has_w && cur_q && cur_a && !cur_t && seen_t) ==> DONE_W) \
   __CPROVER_loop_invariant((has_w && cur_q && !cur_a && seen_a) ==> DONE_W) \
   __CPROVER_loop_invariant((has_w && !cur_q && seen_q) ==> DONE_W)
-#define P2 __CPROVER_loop_invariant(CONS && v_remaining_slot == g_rem && (has_w ==> DONE_W) && (pend_wc ==> r_wc) && (w_erased ==> r_wc) && ((rt_w && !w_leaf) ==> w_erased))
+#define P2 __CPROVER_loop_invariant(!g_found_f && CONS && v_remaining_slot == g_rem && (has_w ==> DONE_W) && (pend_wc ==> r_wc) && (w_erased ==> r_wc) && ((rt_w && !w_leaf) ==> w_erased))
 #define LOOPASG_CAND__L_WORK , G_WORK
 #define LOOP_CAND__L_WORK P2 \
   __CPROVER_loop_invariant((r_wc && !pend_wc && sm_w) ==> w_erased)
